@@ -218,6 +218,13 @@ func condExpr(c *Cond, lang string) string {
 		s = "whatever the analyst wrote"
 	case "text":
 		s = c.Text
+	case "fail":
+		// cannot be evaluated (the variable does not exist): an error trace, the alternative counts as not true
+		// (XPath: a path that selects nothing compares false without an error)
+		if xp {
+			return xmlEscape("//nosuchvariable > 5")
+		}
+		return xmlEscape("nosuchvariable > 5")
 	}
 	return xmlEscape(s) + andPart(c, lang, xp)
 }
@@ -488,6 +495,8 @@ func (c *Cond) Eval(vars map[string]int64, objs map[string]int64) (bool, bool) {
 		r = c.Lit
 	case "informal":
 		r = true
+	case "fail":
+		return false, true
 	case "var", "obj":
 		src := vars
 		if c.Kind == "obj" {
